@@ -118,3 +118,27 @@ Proof.
   destruct Hi as (E & Hg & (ch & Hsub & HE)). exists ch. split; [exact Hsub|].
   apply (safe_set_eq _ E); [exact HE|]. now apply open_fault_leaves_recoverable.
 Qed.
+
+(* ------------------------------------------------------------------ what "safe" buys *)
+(* a recoverable image opens: none of open's calls fails, every listed SST is there, the store
+   that comes up holds exactly E *)
+Lemma recoverable_image_opens s E : Good s E ->
+  exists s', run (fst (fst (open_prog s))) s = (s', None) /\ snd (open_prog s) = true /\
+             Run s' (snd (fst (open_prog s))) /\
+             forall e, In e (Crash.Model.all_entries (snd (fst (open_prog s)))) <-> In e E.
+Proof.
+  intros Hg. destruct (open_walk s E Hg) as [[_ (s' & Hrun & HR & Hent)] Hok]. exists s'. auto.
+Qed.
+
+(* ... and a safe state is one every crash image of which is such an image, for the acknowledged
+   entries or for those plus the whole batch in flight *)
+Lemma safe_state_recovers s E P img : Safe s E P -> cut s img ->
+  exists E', (E' = E \/ exists p, P = Some p /\ E' = E ++ p) /\
+    exists s', run (fst (fst (open_prog img))) img = (s', None) /\ snd (open_prog img) = true /\
+               Run s' (snd (fst (open_prog img))) /\
+               forall e, In e (Crash.Model.all_entries (snd (fst (open_prog img)))) <-> In e E'.
+Proof.
+  intros HS Hc. destruct (HS img Hc) as [Hr|(p & Hp & Hr)].
+  - exists E. split; [now left|]. apply recoverable_image_opens. eapply rec_good_image; eauto.
+  - exists (E ++ p). split; [right; eauto|]. apply recoverable_image_opens. eapply rec_good_image; eauto.
+Qed.
